@@ -5,6 +5,7 @@ import MidnightZK.Proofs.C04.Range2
 import MidnightZK.Proofs.C04.DivRem
 import MidnightZK.Proofs.C04.Complete
 import MidnightZK.Proofs.C04.Bytes
+import MidnightZK.Proofs.C04.Opt
 /-!
 # C04 — native-field gadgets are complete and sound w.r.t. their mathematical meaning
 
@@ -289,6 +290,29 @@ theorem opt_limb_sizes_ok_small :
   have : ∀ k < 25, (∀ r ∈ (optTable 4 8 k).getD k [], r ≠ [] ∧ r.length ≤ 4 ∧ ∀ x ∈ r, r.head? = some x) ∧
       (((optTable 4 8 k).getD k []).map List.sum).sum = k := by decide +kernel
   exact this k hk
+
+/-- **`compute_optimal_limb_sizes` (cpu_utils.rs) is well-formed for EVERY bit length in EVERY
+configuration** with at least one lookup column and `max_bit_len ≥ 1`, by induction over the
+dynamic programme: every row is a non-empty run of one bit length in `[1, max_bit_len]` (so its
+tag is in the loaded table), at most `nr` long, and the lengths add up to the requested number of
+bits. Discharges the hypothesis `OptOK` of all range-check theorems. -/
+theorem opt_limb_sizes_ok (nr maxBl k : Nat) (h0 : 0 < nr) (hm : 0 < maxBl) :
+    (∀ r ∈ (optTable nr maxBl k).getD k [], r ≠ [] ∧ r.length ≤ nr ∧ (∀ x ∈ r, r.head? = some x) ∧
+      ∀ x ∈ r, 1 ≤ x ∧ x ≤ maxBl) ∧
+    (((optTable nr maxBl k).getD k []).map List.sum).sum = k :=
+  optTable_good nr maxBl h0 hm k
+
+/-- `OptOK` holds in every state of every admissible configuration. -/
+theorem opt_ok_all (s : St F) (k : Nat) (h0 : 0 < s.nrCols) (hm : 0 < s.maxBitLen) : OptOK s k :=
+  optOK_all s k h0 hm
+
+/-- `assert_less_than_pow2` without the `OptOK` hypothesis: EVERY bit length `k`, every
+configuration with 1..4 lookup columns and `max_bit_len ≥ 1`. -/
+theorem assert_less_than_pow2_sound_all (hR : RangeSound R) (s : St F) (x : Cell) (k : Nat)
+    (asg : Cell → F) (h0 : 0 < s.nrCols) (h4 : s.nrCols ≤ 4) (hm : 0 < s.maxBitLen)
+    (hc : s.CacheOK asg) (h : (assertLessThanPow2 s x k).Holds R asg) :
+    ∃ N : Nat, N < 2 ^ k ∧ asg x = (N : F) :=
+  assert_less_than_pow2_sound hR s x k asg h0 h4 (optOK_all s k h0 hm) hc h
 
 /-- `assert_lower_than_fixed` for an arbitrary bound (constraint-emitting path). Partial: the
 early return on a cached smaller bound is justified by an invariant of `constrained_cells` that
